@@ -73,6 +73,9 @@ def zmod_sum(z1, z2):
     return z_sum
 
 def fox_word_derivative(differential, word):
+    if len(word) == 0:
+        return defaultdict(int, {})
+
     if len(word) == 1:
         if word == differential:
             return defaultdict(int, {"":1})
